@@ -190,6 +190,70 @@ def gen_conn_case(rng):
                                                   " ".join(script), len(tail))
 
 
+def gen_ipc_case(rng):
+    """uv_write2 with a real handle on an IPC pipe; payloads split over several rounds by short writes"""
+    ops, behs, script, written = [], [], [], []
+
+    def payload():
+        n = rng.choice([1, 2, 2, 3, 4, 6])
+        b = [rng.choice([0, 1, 2, 3, 5, 8, 100]) for _ in range(n)]
+        if sum(b) == 0:
+            b[rng.randrange(n)] = rng.choice([1, 3, 7])     # an empty payload cannot carry a descriptor
+        written.append(b)
+        return lens_str(b)
+
+    def some_op(top):
+        r = rng.random()
+        if r < 0.40:
+            return "V" + payload()
+        if r < 0.60:
+            return "W" + lens_str(gen_bufs(rng, False))
+        if r < 0.68:
+            return "T" + lens_str(gen_bufs(rng, False))
+        if r < 0.74:
+            return "S"
+        if r < 0.78:
+            return "X"
+        if r < 0.81:
+            return "C"
+        return "R" if top else "V" + payload()
+    ops.append("V" + payload())
+    for _ in range(rng.randint(1, 10)):
+        ops.append(some_op(True))
+    for _ in range(rng.choice([0, 0, 1, 3, 6])):
+        behs.append(" ".join(some_op(False) for _ in range(rng.choice([0, 1, 1, 2]))))
+    bounds = [1, 1, 2]
+    for b in written:
+        acc = 0
+        for x in b:
+            acc += x
+            bounds += [acc, acc + 1, max(1, acc - 1)]
+    for _ in range(rng.choice([3, 6, 10, 20])):
+        r = rng.random()
+        script.append("n%d" % rng.choice(bounds) if r < 0.55 else
+                      rng.choice(["e11", "e11", "e105", "e4", "e4", "n0", "n1", "p", "e32"]))
+    zeros = sum(1 for b in written for x in b if x == 0)
+    tail = ["R"] * (zeros + len(script) + 10)
+    if rng.random() < 0.4:
+        tail += ["C", "R"]
+    return "0 0 - 1 ; %s ; %s ; %s ; settle%d" % (" ".join(ops + tail), " | ".join(behs), " ".join(script), len(tail))
+
+
+FIXED_IPC = [
+    # the payload goes out in three rounds: the descriptor must go with the first accepted sendmsg only
+    # (the seeded change cleared req->send_handle only when the whole request was written)
+    "0 0 - 1 ; V5,5 R R R R ; ; n3 n3 n4 ; settle4",
+    "0 0 - 1 ; V5,5 R R R R R R ; ; e11 e4 n3 e105 n1 n6 ; settle6",
+    "0 0 - 1 ; V1*1030 R R R ; ; ; settle3",
+    "0 0 - 1 ; V3 V2,2 W4 V1 R R R R R R ; V1,1 | ; e11 n1 n1 n1 n2 n2 ; settle6",
+    # the handle is closed while the request is queued: UV_EBADF, nothing sent
+    "0 0 - 1 ; W2 V3 X R R R ; ; e11 ; settle3",
+    # error before anything was sent; refused on a pipe that is not an IPC pipe
+    "0 0 - 1 ; V4 R R ; ; e32 ; settle2",
+    "0 0 - 0 ; V3 R ; ; ; settle1",
+]
+
+
 FIXED_CONN = [
     # the path the integrator's seeded change broke: only zero-length buffers queued while connecting, then shutdown
     "0 0 t0 ; W0 S R R R R ; ; ; settle4",
@@ -250,6 +314,7 @@ def monitor(case, line):
     last_chunk_id = -1
     in_try = None
     in_cb = False
+    write2, fd_sent, peer_fds = set(), {}, {}
     hdr0 = case.split(";")[0].split()
     conn_case = len(hdr0) > 2 and hdr0[2][0] in "tuTU"
     conn_status, pending_at_conn, shut_pending_at_conn, conn_step_open = None, [], False, False
@@ -262,6 +327,25 @@ def monitor(case, line):
         k, a = ev[0], ev[1:]
         if k == "!":
             return (None, "writev called with more than IOV_MAX entries (%s)" % a)
+        if k == "m":
+            write2.add(int(a)); continue
+        if k == "f":
+            i = int(a)
+            if i not in write2:
+                return (None, "a descriptor was attached to a write of request %d, which has no send_handle" % i)
+            fd_sent[i] = fd_sent.get(i, 0) + 1
+            if fd_sent[i] > 1:
+                return (None, "the descriptor of uv_write2 request %d was attached to %d accepted sendmsg calls "
+                              "(the peer receives the handle more than once)" % (i, fd_sent[i]))
+            if acc.get(i, 0) > 0:
+                return (None, "the descriptor of uv_write2 request %d was attached after %d of its bytes were sent" % (i, acc[i]))
+            continue
+        if k == "g":
+            if fd_sent.get(int(a), 0) > 0:
+                return (None, "a later attempt of uv_write2 request %s carried the descriptor again" % a)
+            continue
+        if k == "p":
+            i, n = a.split(":"); peer_fds[int(i)] = int(n); continue
         if k == "w":
             i, t = a.split(","); i = int(i)
             total[i] = int(t); acc[i] = 0
@@ -358,6 +442,18 @@ def monitor(case, line):
                 return (None, "the peer read %d bytes, the OS accepted %d" % (nbytes, sum(acc.values())))
             if sys_shut == 0 and eof != 1:
                 return (None, "no end-of-stream at the peer after shutdown(2)")
+    # descriptors: what the peer really received with recvmsg, per uv_write2 request
+    for i, n in peer_fds.items():
+        if i not in write2 or n > 1:
+            return (None, "the peer received %d descriptors for request %d%s" %
+                          (n, i, "" if i in write2 else ", which is no uv_write2"))
+    for i in write2:
+        if cbs.get(i) == 0 and total.get(i, 0) > 0 and peer_fds.get(i, 0) != 1:
+            return (None, "uv_write2 request %d completed with status 0 but the peer received %d descriptors"
+                          % (i, peer_fds.get(i, 0)))
+        if acc.get(i, 0) > 0 and fd_sent.get(i, 0) != 1:
+            return (None, "bytes of uv_write2 request %d were sent but its descriptor went out %d times"
+                          % (i, fd_sent.get(i, 0)))
     # requests that had bytes left at shutdown(2) must have been reported as failed
     for i in left_at_shut:
         if cbs.get(i) == 0:
@@ -387,9 +483,11 @@ def model_input(case, impl_line):
     if len(parts) != 5:
         return None
     c = case.split(";")
-    blk = c[0].split()[0]
-    return "%s %s %s ;%s;%s; %s ; %s" % (blk, parts[3].strip(), parts[4].strip().rstrip(","), c[1], c[2],
-                                        parts[1].strip(), parts[2].strip())
+    hdr = c[0].split()
+    blk = hdr[0]
+    ipc = hdr[3] if len(hdr) > 3 else "0"
+    return "%s %s %s %s ;%s;%s; %s ; %s" % (blk, parts[3].strip(), parts[4].strip().rstrip(","), ipc, c[1], c[2],
+                                           parts[1].strip(), parts[2].strip())
 
 
 def run_harness(cmd, cases, shards=12):
@@ -520,6 +618,10 @@ def main():
     run_mode(chk, "stream.c write path = Model/StreamWrite.v (writes queued while uv_tcp_connect/uv_pipe_connect is pending)",
              [hs, "unix"], model, ccases)
 
+    icases = FIXED_IPC + [gen_ipc_case(chk.rng) for _ in range(12000 if thorough else 2000)]
+    run_mode(chk, "stream.c write path = Model/StreamWrite.v (uv_write2 with a handle on an IPC pipe)",
+             [hs, "unix"], model, icases)
+
     chk.finish(
         level="proof",
         rule="random API scripts (write/try_write/shutdown/close/run, at top level and from inside write and "
@@ -530,7 +632,10 @@ def main():
              "write_queue_size after every step and inside every callback, shutdown(2) position, peer bytes/EOF; "
              "third pass: scripts that start between a real non-blocking uv_tcp_connect/uv_pipe_connect (to a "
              "listener of the harness, or to an address nobody listens on) and the connect callback, with "
-             "connect(2)/getsockopt(SO_ERROR) answers logged and EINPROGRESS answers forced",
+             "connect(2)/getsockopt(SO_ERROR) answers logged and EINPROGRESS answers forced; fourth pass: uv_write2 "
+             "with a bound uv_tcp_t as send_handle on a pipe opened with ipc=1, payloads split by scripted short "
+             "writes; the wrapped sendmsg keeps and records the SCM_RIGHTS control message per call, the peer "
+             "counts the descriptors it receives with recvmsg per request",
         trusted=["Coq 8.16.1 kernel (coqc)", "ExtrOcamlBasic extraction + OCaml 4.13.1 + zarith glue (ocaml/zutil.ml, drv_c05.ml)",
                  "harness/c05_stream.c (syscall wrappers, address->request mapping, peer drain), checks/c05.py (generator, monitor)",
                  "gcc 12, Linux AF_UNIX/TCP sockets"])
